@@ -5,6 +5,8 @@ import (
 	"context"
 	"errors"
 	"fmt"
+	"google.golang.org/grpc"
+	"io"
 	"math"
 	"os"
 	"runtime"
@@ -437,6 +439,21 @@ func runTopology(rec *mon.Recorder, c int) {
 				gone = n
 			}
 		}
+		// a second dataset that nobody has searched yet (no node holds a search client for it), with a few items
+		var ds2 uuid.UUID
+		ds2Items := 0
+		if gone != nil {
+			if id2, _, err := cl.CreateDataset(0, 4, 6, 1, pb.Space_Euclidean); err == nil {
+				ds2 = id2
+				for i := 0; i < 18; i++ {
+					ictx, cancel := context.WithTimeout(ctx, 5*time.Second)
+					if cl.Nodes[0].Dataset(ds2).Insert(ictx, hx.Id(c*1000+500+i), []float32{float32(i), 1, 2, 3}, nil) == nil {
+						ds2Items++
+					}
+					cancel()
+				}
+			}
+		}
 		if gone != nil {
 			var rmErr error
 			ok := cl.Guard(20*time.Second, func() { rmErr = cl.Nodes[0].In.NodesManager.RemoveNode(gone.Id) })
@@ -471,6 +488,42 @@ func runTopology(rec *mon.Recorder, c int) {
 						break
 					}
 					checked++
+				}
+				// what a client is told: the never-searched dataset through the public Search service of each remaining
+				// node, asking for more items than it holds - an answer without an error holds all of them
+				for _, via := range left {
+					if ds2Items == 0 || rec.Violations() > 0 {
+						break
+					}
+					cc, derr := grpc.Dial(via.Addr, grpc.WithInsecure())
+					if derr != nil {
+						continue
+					}
+					for rep := 0; rep < 3; rep++ {
+						sctx, cancel := context.WithTimeout(ctx, 5*time.Second)
+						st, err := pb.NewSearchClient(cc).Search(sctx, &pb.SearchRequest{DatasetId: ds2.Bytes(), Query: []float32{1, 1, 2, 3}, K: uint32(ds2Items + 5)})
+						got := 0
+						for err == nil {
+							if _, rerr := st.Recv(); rerr == io.EOF {
+								break
+							} else if rerr != nil {
+								err = rerr
+							} else {
+								got++
+							}
+						}
+						cancel()
+						rec.Count("searches_after_a_node_left_through_the_service", 1)
+						if err == nil && got != ds2Items {
+							sym := "short-result"
+							if got == 0 {
+								sym = "empty-result-with-success"
+							}
+							rec.Violation("search:"+sym+":through-the-service-after-a-node-left-the-cluster", fmt.Sprintf("%s: the Search RPC on node %d for a dataset of %d items (6 partitions, some only on node %d, which has left) answered %d items for k=%d and no error", desc, via.Id, ds2Items, gone.Id, got, ds2Items+5), replayBase)
+							break
+						}
+					}
+					cc.Close()
 				}
 			}
 		}
